@@ -107,11 +107,12 @@ def render(prog, variant=0, netcdf=False):
             lines.append("")
         if variant % 3 == 2 and ci:
             lines.append("# command %d" % ci)
+        head = "%s = %s" % (res, cname) if res else cname
         if not args:
-            lines.append("%s = %s()" % (res, cname))
+            lines.append("%s()" % head)
             table[len(lines)] = (ci + 1, "")
             continue
-        lines.append("%s = %s(" % (res, cname))
+        lines.append("%s(" % head)
         table[len(lines)] = (ci + 1, "")
         for ai, (pn, v) in enumerate(args):
             lines.append("    %s = %s%s" % (pn, render_value(v, pn, res, netcdf), "," if ai < len(args) - 1 else ""))
